@@ -305,7 +305,11 @@ def InlineXor2(obj:Logic):
     return "assign {} = {} ^ {};\n".format(getParentWireName(obj, obj.r), getParentWireName(obj, obj.a) , getParentWireName(obj, obj.b))
 
 def InlineMux2(obj:Logic):
-    return "assign {} = ({})? {} : {};\n".format(getParentWireName(obj, obj.r), getParentWireName(obj, obj.sel), getParentWireName(obj, obj.sel1) , getParentWireName(obj, obj.sel0))
+    sel = getParentWireName(obj, obj.sel)
+    if (obj.sel.getWidth() > 1):
+        # only the LSB of the select signal is considered
+        sel += '[0]'
+    return "assign {} = ({})? {} : {};\n".format(getParentWireName(obj, obj.r), sel, getParentWireName(obj, obj.sel1) , getParentWireName(obj, obj.sel0))
 
 def InlineAddCarryIn(obj:Logic):
     return "assign {} = {} + {} + {};\n".format(getParentWireName(obj, obj.r), getParentWireName(obj, obj.a) , getParentWireName(obj, obj.b) , getParentWireName(obj, obj.ci) )
